@@ -31,7 +31,8 @@ def _sync_lock():
 def build(cfg, layer, log):
     """Rebuild the harness (and enr from /repo's current working tree) for one configuration."""
     _sync_lock()
-    feats = ["--features", "libsecp"] if cfg == "B" else []
+    # A: k256+serde+ed25519 (+hooks); B: A + rust-secp256k1; D: the crate's DEFAULT feature set (k256+serde, + hooks)
+    feats = {"B": ["--features", "libsecp"], "A": [], "D": ["--no-default-features", "--features", "refsecp"]}[cfg]
     if layer in ("release", "valgrind"):
         tdir = os.path.join(TARGET, cfg)
         cmd = ["cargo", "build", "--release"] + feats
@@ -44,7 +45,7 @@ def build(cfg, layer, log):
         env = _env({"CARGO_TARGET_DIR": tdir})
     elif layer == "miri":
         tdir = os.path.join(TARGET, "miri")
-        cmd = ["cargo", "+nightly", "miri", "run", "--no-default-features", "--", "selftest"]
+        cmd = ["cargo", "+nightly", "miri", "run", "--no-default-features", "--features", "ed", "--", "selftest"]
         binary = MIRI
         env = _env({"CARGO_TARGET_DIR": tdir, "MIRIFLAGS": "-Zmiri-disable-isolation"})
     elif layer == "asan":
@@ -69,7 +70,7 @@ def build(cfg, layer, log):
 
 def setup(log):
     rc = 0
-    for cfg, layer, optional in [("B", "release", False), ("A", "release", False), ("B", "dev", False), ("A", "dev", False),
+    for cfg, layer, optional in [("B", "release", False), ("A", "release", False), ("D", "release", False), ("B", "dev", False), ("A", "dev", False),
                                  ("A", "miri", True), ("B", "asan", True)]:
         ok, _b, msg = build(cfg, layer, log)
         log("setup: build %s/%s: %s" % (cfg, layer, "ok" if ok else "FAILED"))
@@ -84,7 +85,7 @@ def wrapper(job, outdir, shard):
     """(argv prefix, environment) for running one worker of this job."""
     layer = job["layer"]
     if layer == "miri":
-        return (["cargo", "+nightly", "miri", "run", "-q", "--no-default-features", "--"],
+        return (["cargo", "+nightly", "miri", "run", "-q", "--no-default-features", "--features", "ed", "--"],
                 _env({"CARGO_TARGET_DIR": os.path.join(TARGET, "miri"),
                       "MIRIFLAGS": "-Zmiri-disable-isolation -Zmiri-ignore-leaks"}))
     if layer == "valgrind":
@@ -158,12 +159,16 @@ def jobs(prop, tier):
         js.append(_job("B-asan", "B", "asan", range(NSHARDS), 0.25, 200, optional=True))
     if quick:
         js.append(_job("B-release", "B", "release", range(NSHARDS), 1.0, 100))
-        # default-feature configuration (no rust-secp256k1): a slice of the same cases
+        # without rust-secp256k1 (A) and with the crate's default feature set only (D): slices of the same cases
         js.append(_job("A-release", "A", "release", [3, 11], 1.0, 100))
+        if prop != "C17":
+            js.append(_job("D-release", "D", "release", [7], 1.0, 100))
         if prop in OVERFLOW_PROPS:
             js.append(_job("B-dev", "B", "dev", [5], 0.5, 100))
     else:
         js.append(_job("B-release", "B", "release", range(NSHARDS), 1.0, 420))
         js.append(_job("A-release", "A", "release", range(NSHARDS), 0.2, 200))
+        if prop != "C17":
+            js.append(_job("D-release", "D", "release", range(NSHARDS), 0.1, 200))
         js.append(_job("B-dev", "B", "dev", range(NSHARDS), 0.05, 240))
     return js
